@@ -63,7 +63,7 @@ func genC03(r *Rng) *Plan {
 			hdrs = append(hdrs, [2]string{"X-Forwarded-For", "10.0.0.1"}, [2]string{"X-Other", "kept"})
 		}
 		st := Step{Op: "get", B: "b1", Host: host, Headers: hdrs, Dt: posDur(landmark(r, cfg) / 4),
-			Target: r.Pick("/", "/private", "/public/a", "/health", "/public/../x", "/api?x=1"), Method: r.Pick("GET", "GET", "POST", "OPTIONS", "PUT")}
+			Target: r.Pick("/", "/private", "/public/a", "/health", "/public/../x", "/api?x=1", "/favicon.ico", "/oauth2/auth", "/robots.txt", "/public/favicon.ico"), Method: r.Pick("GET", "GET", "POST", "OPTIONS", "PUT")}
 		// cookie layouts: the session cookie first / middle / last / duplicated among other cookies
 		if r.Chance(2, 3) {
 			others := []string{"theme=dark", "lang=en-US", `q="quoted value"`, "empty=", "sid=abc123", "_sso_proxyx=notmine", "x_sso_proxy=notmine", "a=b=c", "tracking=1.2.3"}
